@@ -25,6 +25,8 @@ Extracted (every run, from the working tree under test):
                   that it raises, or that it does not come back within 2 s.
   * `patterns`   - every regular expression applied while a source file is read and parsed, as
                   the syntax tree `re` builds for it (see translate/c20rx.py).
+  * `warnSpec`, `warnProbes`, `progressSpec`, `progressProbes`, `rejectionMsg`, `handlerSteps`,
+    `emojiSample` - the diagnostic channel (see translate/c20diag.py).
 A construct that cannot be found raises (the check then reports "tie broken").
 """
 from __future__ import annotations
@@ -41,6 +43,7 @@ from pathlib import Path
 
 from harness import common
 from . import c20rx
+from . import c20diag
 
 KIND_OF_CLASS = {
     "FortranSourceFile": "file",
@@ -450,7 +453,7 @@ def generate() -> str:
     def obs_lean(o):
         return ".items " + lean_list(lean_chars(x) for x in o[1]) if o[0] == "items" else "." + o[0]
     L = ["/- GENERATED by translate/c20.py from ford/sourceform.py and ford/settings.py - do not edit -/",
-         "import FordModel.NestingTypes", "import FordModel.Backtrack", "namespace Ford.Gen", "open Ford", "",
+         "import FordModel.NestingTypes", "import FordModel.Backtrack", "import FordModel.Markup", "namespace Ford.Gen", "open Ford", "",
          "/-- the if/elif chain of FortranContainer.__init__, in source order -/",
          "def cascade : List (Branch × Guard) :=",
          "  " + lean_list(f"(.{b}, .{g})" for b, g in cascade), "",
@@ -474,7 +477,7 @@ def generate() -> str:
          "/-- files ending in each state of the reader (default marks) and what FortranReader does on them -/",
          "def eofProbes : List (List Str × ProbeObs) :=",
          "  [" + ",\n   ".join("(" + lean_list(lean_chars(l) for l in lines) + ", " + obs_lean(o) + ")" for lines, o in eof) + "]",
-         ""] + c20rx.lean_table(lean_chars) + ["", "end Ford.Gen", ""]
+         ""] + c20rx.lean_table(lean_chars) + [""] + c20diag.lean_table() + ["", "end Ford.Gen", ""]
     return "\n".join(L)
 
 
